@@ -39,7 +39,7 @@ ASSUMPTIONS = ["pymoto.core_objects.get_init_str (diagnostic source-location str
                "not fix it)",
                "block columns are identified by the integer in the array-name suffix (zero based); a plain vector must "
                "carry exactly the signal tag; tags are plain words (no XML-special characters, none a prefix of another)",
-               "file counters and logged iteration numbers are zero based and consecutive",
+               "file counters and logged iteration numbers are consecutive and start at 0 or at 1 (the statement does not fix the base)",
                "a two-component point vector on a 3-D domain may be written with 2 components or padded to 3 (the "
                "statement only fixes the 2-D case); two-component CELL data is kept out of the alphabet for the same "
                "reason; values stay inside the float32 range (overflow to inf is not demanded), no NaN",
